@@ -192,6 +192,9 @@ func (p *ProofD) reconstructRangeProofStructures(pk *gabikeys.PublicKey) error {
 	for index, proofs := range p.RangeProofs {
 		p.cachedRangeStructures[index] = []*rangeproof.ProofStructure{}
 		for _, proof := range proofs {
+			if proof == nil {
+				return errors.New("missing range proof")
+			}
 			s, err := proof.ExtractStructure(index, pk)
 			if err != nil {
 				return err
